@@ -30,6 +30,7 @@ import (
 
 	"verif/harness/internal/gen"
 	"verif/harness/internal/impl"
+	"verif/harness/internal/ref"
 )
 
 type op struct {
@@ -49,18 +50,20 @@ type res struct {
 var cpuWas map[string]bool
 
 var (
-	flagProp   = flag.String("prop", "", "property id")
-	flagTier   = flag.String("tier", "quick", "quick|thorough")
-	flagSeed   = flag.Int64("seed", 1, "PRNG seed")
-	flagDriver = flag.String("driver", "", "path of the Lean driver executable")
-	flagOut    = flag.String("out", "", "where to write the coverage JSON")
-	flagReplay = flag.String("replay", "", "directory for replay files")
-	flagOps    = flag.String("ops", "", "replay: file of op lines to run instead of generating")
-	flagScale  = flag.Int("scale", 0, "override generator scale")
-	flagDump   = flag.String("dump", "", "write generated op lines to this file and exit")
-	flagNoA    = flag.Bool("noa", false, "ignore the algorithm model (specification only)")
-	flagCorpus = flag.String("corpus", "", "directory of *.ops files (minimised past disagreements) that run first")
-	flagCPU    = flag.String("cpu", "", "comma list of golang.org/x/sys/cpu features to clear in-process before running: avx2, popcnt (the assembly kernels of internal/bytealg test these variables; GODEBUG=cpu.* only reaches the standard library's internal/cpu)")
+	flagProp    = flag.String("prop", "", "property id")
+	flagTier    = flag.String("tier", "quick", "quick|thorough")
+	flagSeed    = flag.Int64("seed", 1, "PRNG seed")
+	flagDriver  = flag.String("driver", "", "path of the Lean driver executable")
+	flagOut     = flag.String("out", "", "where to write the coverage JSON")
+	flagReplay  = flag.String("replay", "", "directory for replay files")
+	flagOps     = flag.String("ops", "", "replay: file of op lines to run instead of generating")
+	flagScale   = flag.Int("scale", 0, "override generator scale")
+	flagDump    = flag.String("dump", "", "write generated op lines to this file and exit")
+	flagNoA     = flag.Bool("noa", false, "ignore the algorithm model (specification only)")
+	flagCorpus  = flag.String("corpus", "", "directory of *.ops files (minimised past disagreements) that run first")
+	flagAPIOnly = flag.Bool("apionly", false, "tables plan: report only the directed follow-up ops on exported functions (witness search for another property)")
+	flagFollow  = flag.String("followfns", "", "comma list: exported functions the table follow-up builds ops for (default: all it knows)")
+	flagCPU     = flag.String("cpu", "", "comma list of golang.org/x/sys/cpu features to clear in-process before running: avx2, popcnt (the assembly kernels of internal/bytealg test these variables; GODEBUG=cpu.* only reaches the standard library's internal/cpu)")
 )
 
 func infra(format string, a ...any) {
@@ -277,6 +280,26 @@ wait:
 			viols = append(viols, violation{Kind: "std!=M", Op: o.Line(), I: r.I, A: r.A, S: r.S, Std: o.StdRaw, Note: "std-model=" + r.M, Fam: o.Fam})
 		}
 	}
+	// replaying a witness of the directed table follow-up: the independent reference decides it again
+	if *flagOps != "" {
+		for i, o := range ops {
+			if o.Fam != "" && o.Fam != "replay" {
+				continue
+			}
+			r := results[i]
+			ref.Unicode = true
+			want := ref.Eval(o.Op)
+			ref.Unicode = false
+			bad := want != "" && want != "-" && want != r.I
+			if o.Fn == "Compare" {
+				bad = want != "" && want != "-" && (want == "0") != (r.I == "0")
+			}
+			if bad && r.I != "PANIC" && (r.S == "-" || r.S == r.I) {
+				viols = append(viols, violation{Kind: "I!=ref", Op: o.Line(), I: r.I, A: r.A, S: r.S, Fam: o.Fam,
+					Note: "naive reference over unicode.SimpleFold orbits says " + want})
+			}
+		}
+	}
 	viols = append(viols, cpuPasses(ops, results)...)
 	viols = append(viols, groupChecks(*flagProp, ops, results)...)
 	// a table function disagrees with its model: look for an input on which an exported function goes wrong
@@ -289,6 +312,20 @@ wait:
 		}
 		for i, o := range more {
 			r := out[i]
+			// the specification folds through the regenerated table data, so it cannot judge a change of that data:
+			// an independent naive reference over unicode.SimpleFold orbits decides these ops as well
+			ref.Unicode = true
+			want := ref.Eval(o.Op)
+			ref.Unicode = false
+			refBad := want != "" && want != "-" && want != r.I
+			if o.Fn == "Compare" {
+				refBad = want != "" && want != "-" && (want == "0") != (r.I == "0")
+			}
+			if refBad && r.I != "PANIC" && (r.S == "-" || r.S == r.I) {
+				viols = append(viols, violation{Kind: "I!=ref", Op: o.Line(), I: r.I, A: r.A, S: r.S, Fam: o.Fam,
+					Note: "naive reference over unicode.SimpleFold orbits (harness/internal/ref, Unicode mode) says " + want + "; the Lean specification reads the same regenerated fold table as the code"})
+				continue
+			}
 			if r.I == "PANIC" {
 				viols = append(viols, violation{Kind: "PANIC", Op: o.Line(), I: r.I, A: r.A, S: r.S, Fam: o.Fam})
 			} else if r.S != "-" && r.S != r.I {
@@ -297,6 +334,15 @@ wait:
 		}
 		ops = append(ops, more...)
 		results = append(results, out...)
+	}
+	if *flagAPIOnly {
+		var keep []violation
+		for _, v := range viols {
+			if v.Fam == "table-follow-up" && v.Kind != "I!=A" {
+				keep = append(keep, v)
+			}
+		}
+		viols = keep
 	}
 	report(viols, ops, results, start, scale)
 }
@@ -357,6 +403,18 @@ func cpuPasses(ops []op, results []res) []violation {
 	return out
 }
 
+func wanted(fn string) bool {
+	if *flagFollow == "" {
+		return true
+	}
+	for _, f := range strings.Split(*flagFollow, ",") {
+		if f == fn {
+			return true
+		}
+	}
+	return false
+}
+
 // tableFollowUp: for every code point on which a table function of the real code disagrees with the model,
 // pair it with every number either side returned (candidate fold partners) and build searches and comparisons
 // in which that wrong (or missing) equivalence decides the result.  The specification then says who is right.
@@ -367,14 +425,18 @@ func tableFollowUp(ops []op, results []res, viols []violation) []op {
 	var pairs []pr
 	num := regexp.MustCompile(`-?\d+`)
 	for i, o := range ops {
-		if !isTable[o.Fn] || results[i].A == "-" || results[i].A == results[i].I || len(o.Args) == 0 {
+		// a table function of the real code disagrees with its model (lookup code changed) or with the Unicode-derived
+		// specification (table data changed: model and code read the same regenerated data and still agree)
+		offA := results[i].A != "-" && results[i].A != "" && results[i].A != results[i].I
+		offS := !o.NoS && results[i].S != "-" && results[i].S != "" && results[i].S != results[i].I
+		if !isTable[o.Fn] || !(offA || offS) || len(o.Args) == 0 {
 			continue
 		}
 		r64, err := strconv.ParseInt(o.Args[0], 10, 64)
 		if err != nil || r64 < 0 || r64 > unicode.MaxRune || !utf8.ValidRune(rune(r64)) {
 			continue
 		}
-		for _, tok := range num.FindAllString(results[i].I+" "+results[i].A, -1) {
+		for _, tok := range num.FindAllString(results[i].I+" "+results[i].A+" "+results[i].S, -1) {
 			v, err := strconv.ParseInt(tok, 10, 64)
 			if err != nil || v <= 1 || v > unicode.MaxRune || !utf8.ValidRune(rune(v)) || v == r64 {
 				continue
@@ -386,6 +448,45 @@ func tableFollowUp(ops []op, results []res, viols []violation) []op {
 			}
 		}
 	}
+	// table *data* changes leave code and model in agreement (both read the regenerated data): compare the classes of
+	// CaseFold with the orbits of unicode.SimpleFold directly
+	cf := map[rune]rune{}
+	for i, o := range ops {
+		if o.Fn == "CaseFold" && len(o.Args) > 0 {
+			r64, e1 := strconv.ParseInt(o.Args[0], 10, 64)
+			v64, e2 := strconv.ParseInt(results[i].I, 10, 64)
+			if e1 == nil && e2 == nil && r64 >= 0 && r64 <= unicode.MaxRune {
+				cf[rune(r64)] = rune(v64)
+			}
+		}
+	}
+	addPair := func(a, b rune) {
+		k := pr{a, b}
+		if a != b && utf8.ValidRune(a) && utf8.ValidRune(b) && !seen[k] && len(pairs) < 48 {
+			seen[k] = true
+			pairs = append(pairs, k)
+		}
+	}
+	for r, v := range cf {
+		inOrbit := v == r
+		for x := unicode.SimpleFold(r); x != r; x = unicode.SimpleFold(x) {
+			if x == v {
+				inOrbit = true
+			}
+			if w, ok := cf[x]; ok && w != v {
+				addPair(r, x) // two members of one orbit fold differently
+			}
+		}
+		if !inOrbit {
+			addPair(r, v) // folds to a code point outside its orbit
+		}
+	}
+	sort.Slice(pairs, func(i, j int) bool {
+		if pairs[i].r != pairs[j].r {
+			return pairs[i].r < pairs[j].r
+		}
+		return pairs[i].v < pairs[j].v
+	})
 	var out []op
 	sfx := impl.CfgSuffix()
 	add := func(fn, pkg string, args ...string) {
@@ -403,10 +504,14 @@ func tableFollowUp(ops []op, results []res, viols []violation) []op {
 				for j := range hays {
 					h, n := impl.Hex([]byte(hays[j])), impl.Hex([]byte(needles[j]))
 					for _, fn := range []string{"Index", "LastIndex", "Contains", "Count", "EqualFold", "Compare", "HasPrefix", "HasSuffix", "IndexAny", "LastIndexAny"} {
-						add(fn, pkg, h, n)
+						if wanted(fn) {
+							add(fn, pkg, h, n)
+						}
 					}
 					r, _ := utf8.DecodeRuneInString(a)
-					add("IndexRune", pkg, h, strconv.Itoa(int(r)))
+					if wanted("IndexRune") {
+						add("IndexRune", pkg, h, strconv.Itoa(int(r)))
+					}
 				}
 			}
 		}
